@@ -17,6 +17,7 @@ import GocoinV.Proofs.C14Xpub
 import GocoinV.Proofs.C14Lookup
 import GocoinV.Proofs.C14Store
 import GocoinV.Proofs.C14Examples
+import GocoinV.Gen.WalletInputFacts
 namespace GocoinV.Props.C14
 open GocoinV Proofs.C14 HD WalletKeys
 
@@ -904,5 +905,19 @@ example :
     let t : Typed := { first := [0x70, 0x77, 10], second := [0x70, 0x77, 13, 10], singleAsk := false,
                        genMode := true, ask4pass := false, save := true }
     getpassTyped c t = .ok ([0x53, 0x70, 0x77], some [0x70, 0x77]) := by decide
+
+/-- What two key generations inside ONE process share, as facts re-read from wallet/*.go on every run
+    (go/cmd/gen_c14/inputs.go). The session theorems above take ONE list `fresh` for every make_wallet of a run, and the
+    address theorems pair every record with ITS OWN segwit form; both rest on conventions of the Go code that are not
+    logic of the model: (1) the configured `seed=` prefix is only ever declared, assigned as a whole, measured with
+    len(), copied FROM, or compared with nil - so no buffer that make_wallet wipes after hashing (getpass's result) can
+    share memory with it, and the second generation of a `-sign .. -send ..` run starts from the same prefix bytes as
+    the first; (2) the list `segwit` is `make(.., len(keys))`, never appended to, and filled only at the index of a
+    range over `keys` - slot i belongs to keys[i], a key without a segwit address (uncompressed import from .others)
+    leaves ITS slot nil instead of shifting its neighbours. Syntactic and conservative: a rewrite into another shape
+    flips a fact without a failing input; the harness families `seed-prefix` sessions and `.others` wallets look for the
+    concrete input. -/
+theorem generation_inputs_source_facts :
+    Gen.WalletInputFacts.seedPrefixOtherUses = [] ∧ Gen.WalletInputFacts.segwitParallelToKeys = true := by decide
 
 end GocoinV.Props.C14
